@@ -62,6 +62,8 @@ _FFSYM = {"module": "FirstFitSym.tla", "inv": "Inv", "length": 9, "tiers": ["tho
                   "non-negative integers (symbolic): partition shape and the greedy rule hold for all of them"}
 PROPS["C06"]["apalache"] = [_FFSYM]
 PROPS["C07"]["apalache"] = [_FFSYM]
+PROPS["C15"]["steps"] = "quick"          # unfill() step by step against MC_Refill (spec/TraceRefill.tla)
+PROPS["C15"]["steps_gen"] = "USTEPS"
 for _p in PROPS.values():
     _p.setdefault("dev", PINNED)
     _p.setdefault("mc", [])
